@@ -205,7 +205,8 @@ func run(c check, tier string, seed int64, onlyUnit string) int {
 	counters := map[string]int64{}
 	notes := map[string]interface{}{}
 	exhaustive := map[string]bool{}
-	var rules, assumptions []string
+	var rules []string
+	assumptions := []string{"the harness's own recorders and simulated networks are correct (they are part of the trusted base of every check)"}
 	seenRule := map[string]bool{}
 	type tagged struct {
 		unit string
